@@ -7,7 +7,7 @@ TOK = {"ident": ["zz", "\\61 b", "-x"], "IDENT-and": ["and"], "ident-important":
        "url(": ["url("], "var(": ["var("], "calc(": ["calc("], "rgb(": ["rgb("], "hsl(": ["hsl(", "hsla("], "not(": [":not("], "nth-child(": [":nth-child("],
        "expression(": ["expression("], "@charset-sp": ["@charset "], "@charset": ["@charset"], "@import": ["@import"], "@media": ["@media"],
        "@page": ["@page"], "@font-face": ["@font-face"], "@namespace": ["@namespace"], "@variables": ["@variables"], "@top-left": ["@top-left"],
-       "@x": ["@x"], "hash": ["#abc", "#1"], "string": ['"s"', "'t'"], "uri": ["url(u)"], "number": ["1", "-.5"], "percentage": ["50%"],
+       "@x": ["@x"], "hash": ["#abc", "#1"], "string": ['"s"', "'t'", '"http://[x"'], "uri": ["url(u)", "url(http://[x)"], "number": ["1", "-.5"], "percentage": ["50%"],
        "dimension": ["1px", "2e3"], "dimension-esc": ["1\\a x", "1\\70 x"], "number-huge": ["9" * 400, "1" + "0" * 400 + ".5"], "urange": ["u+0-7f"], "~=": ["~="], "|=": ["|="], "cdo": ["<!--"], "cdc": ["-->"], "S": [" ", "\t"],
        "comment": ["/*c*/"], "{": ["{"], "}": ["}"], "(": ["("], ")": [")"], "[": ["["], "]": ["]"], ";": [";"], ":": [":"], ",": [","], ".": ["."],
        "*": ["*"], ">": [">"], "+": ["+"], "!": ["!"], "/": ["/"], "=": ["="], "#": ["#"], "@": ["@"], "%": ["%"], "&": ["&"], "$": ["$"],
@@ -25,6 +25,7 @@ NEST = {"{": ("{", "}"), "(": ("(", ")"), "[": ("[", "]"), "func": ("f(", ")"), 
 TEXTS = {"plain": 'a { left: 0 } @media print { b { top: 1px } }', "malformed": 'a { left: } } @import "late"; b {{ x ]',
          "charset-hex": '@charset "hex";\na { left: 0 }', "charset-css": '@charset "css";\na { left: 0 }',
          "charset-rot13": '@charset "rot13";\na { left: 0 }', "charset-unknown": '@charset "no-such-encoding";\na { left: 0 }',
+         "charset-undefined": '@charset "undefined";\na { left: 0 }',
          "truncated-charset": "@charset ", "bom": "﻿a { left: 0 }", "charset-rule": '@charset "iso-8859-1";\na { content: "é" }', "empty": ""}
 
 
@@ -136,6 +137,8 @@ def graph_fetcher(graph, kind):
             return None, ('@charset "no-such-encoding";' + txt).encode("ascii")
         if kind.startswith("bytes-charset-"):
             return None, ('@charset "%s";' % kind[14:] + txt).encode("ascii")
+        if kind.startswith("text-enc-"):
+            return kind[9:], txt            # an encoding named for a text that needs no decoding
         if kind == "bytes-undecodable":
             return "ascii", txt.encode("ascii") + b" /* \xff\xfe */"
         if kind == "bytes-bom":
